@@ -3,10 +3,15 @@
 //	c11 extract   facts (go/ast): the cache cells of the executor (plan.CachedResults, plan.Subquery, plan.HashLookup), when
 //	              buildCachedResults serves from the cell and when cachedResultsIter fills it, the only call site of
 //	              NewCachedResults, that QueryWithBindings plans afresh (bindQuery) and that the session's prepared cache
-//	              holds a parsed statement
-//	c11 run       (1) histories of DML and repeated queries on one engine, issued from two sessions, each query as plain text
-//	              and as a re-executed PREPARE/EXECUTE, twice in a row; the Lean driver predicts every observation from the
-//	              reference state (`runFresh` = `runSpec`, Gms.C11.cache_scoped);
+//	              holds a parsed statement; the early returns and calls of the code that starts / ends a transaction and the
+//	              methods that fill / reset memory.Session.tables; where the plan builder marks trigger-body subqueries and the
+//	              cacheable flag of every subquery in the analyzed plans of probe statements (facts2.go)
+//	c11 run       (1) histories of DML, repeated queries and transaction control (txhist.go) on one engine, issued from two
+//	              sessions, each query as plain text and as a re-executed PREPARE/EXECUTE, twice in a row; the Lean driver predicts
+//	              every observation from the reference state (`runFresh` = `runSpec`, Gms.C11.cache_scoped; session bookkeeping
+//	              `TxSnapshot.runImpl` = `runSpec`, Gms.C11.tx_snapshot_scoped);
+//	              (3) multi-row statements firing a trigger whose body has subqueries over a table the body writes (trig.go),
+//	              predicted by Gms.TrigCache (Gms.C11.trigger_rows_current);
 //	              (2) model-free: a pool of cache-prone query shapes (uncorrelated IN / scalar subqueries, derived tables joined
 //	              through CachedResults + HashLookup, EXISTS, a view, CTEs, a stored procedure with a loop) is run after every
 //	              write of a history on the live engine (twice) and on a fresh engine loaded with a dump of the current data.
@@ -585,7 +590,9 @@ func calls(src *hx.Src, fd *ast.FuncDecl, sub string) bool {
 
 func extract(a hx.ExtractArgs) error {
 	lf := hx.NewLeanFile("Gms.Generated.C11", "sql/plan/cached_results.go", "sql/rowexec/cache.go", "sql/plan/subquery.go",
-		"sql/plan/hash_lookup.go", "sql/analyzer/resolve_subqueries.go", "engine.go", "sql/base_session.go")
+		"sql/plan/hash_lookup.go", "sql/analyzer/resolve_subqueries.go", "engine.go", "sql/base_session.go",
+		"sql/rowexec/transaction.go", "sql/rowexec/transaction_iters.go", "memory/session.go", "sql/planbuilder/scalar.go",
+		"analyzed plans of probe statements (run)")
 	cr, err := hx.ParseSrc(a.Repo, "sql/plan/cached_results.go")
 	if err != nil {
 		return err
@@ -703,6 +710,12 @@ func extract(a hx.ExtractArgs) error {
 		ptypes = append(ptypes, bs.Text(p.Type))
 	}
 	lf.DefStringList("sessionPrepareQueryParamTypes", ptypes)
+	if err := txFacts(a, lf); err != nil {
+		return err
+	}
+	if err := subqueryFacts(a, lf); err != nil {
+		return err
+	}
 	return lf.Write(a.Out)
 }
 
@@ -795,25 +808,34 @@ func setupExec(out *hx.Out, e *eng.Eng, ctx *sql.Context, who, q string) bool {
 func run(a hx.RunArgs) error {
 	out := hx.NewOut(a.OutDir)
 	defer out.Close()
-	out.Rule = "histories of 6-14 steps over t(id,k,s): INSERT/UPDATE/DELETE and SELECT (predicates, IN lists, BETWEEN, LIMIT) issued from two sessions of one " +
-		"engine; every SELECT is executed as text and as a re-executed PREPARE/EXECUTE in both sessions, twice in a row, and must show the state left by the " +
-		"latest write; after every write 16 cache-prone query shapes (uncorrelated subqueries, derived-table joins behind CachedResults/HashLookup, EXISTS, view, " +
-		"CTE, procedure loop) are compared with a fresh engine loaded from a dump; a history is non-trivial when a query text is executed before and after " +
-		"a write that changes its result"
+	out.Rule = "(1) histories of 6-14 steps over t(id,k,s): INSERT/UPDATE/DELETE, SELECT (predicates, IN lists, BETWEEN, LIMIT) and transaction control " +
+		"(START TRANSACTION [READ ONLY|READ WRITE], BEGIN, COMMIT, ROLLBACK, SET autocommit) issued from two sessions of one engine, followed by an epilogue " +
+		"(open transactions ended, a write from each session, a full read from each session); every SELECT is executed as text and as a re-executed " +
+		"PREPARE/EXECUTE, twice in a row, in both sessions when neither has a transaction open, and must show the rows the session is entitled to — outside a " +
+		"transaction the state left by the latest write; after writes 16 cache-prone query shapes (uncorrelated subqueries, derived-table joins behind " +
+		"CachedResults/HashLookup, EXISTS, view, CTE, procedure loop) are compared with a fresh engine loaded from a dump; a history is non-trivial when a " +
+		"query text is executed before and after a write that changes its result, or a session reads after a transaction of its own ended and the other " +
+		"session wrote; (2) multi-row INSERT … VALUES / INSERT … SELECT / UPDATE statements firing a BEFORE trigger whose body has scalar / IN / EXISTS " +
+		"subqueries over a side table the body itself writes; non-trivial when the statement touches at least two rows and a subquery of the body is uncorrelated"
 	r := hx.NewRand(a.Seed).Fork()
 	nHist := 60
 	if a.Thorough {
 		nHist = 800
 	}
 	e := eng.New("d")
-	s1 := &session{ctx: e.Ctx(), names: map[string]string{}}
-	s2 := &session{ctx: e.Ctx(), names: map[string]string{}}
+	ss := [2]*session{{ctx: e.Ctx(), names: map[string]string{}}, {ctx: e.Ctx(), names: map[string]string{}}}
+	s1, s2 := ss[0], ss[1]
 	setupSchema(e, s1.ctx)
-	type pooled struct {
-		st *stmt
-	}
 	var queries []*stmt // pool of query statements re-used across histories (prepared texts survive)
 	for h := 0; h < nHist; h++ {
+		// every history starts from sessions without a transaction, whatever the previous history did to them (on the unchanged
+		// tree these two statements change nothing: the epilogue of a history ends what it opened) — a history that leaves a
+		// session in a wrong state is reported for what it observed itself and does not cascade into the later ones
+		for _, s := range ss {
+			for _, q := range []string{"ROLLBACK", "SET autocommit = 1"} {
+				e.Query(s.ctx, q)
+			}
+		}
 		// reset data (the tables, the view, the procedure and the sessions' prepared statements persist)
 		for _, q := range []string{"DELETE FROM t", "DELETE FROM u"} {
 			if !setupExec(out, e, s1.ctx, "session1", q) {
@@ -837,70 +859,39 @@ func run(a hx.RunArgs) error {
 		}
 		nSteps := 6 + r.Intn(9)
 		// the full dump and a simple filter are always candidates for a re-run: their result changes with most writes
+		full := &stmt{kind: "select", proj: []*pexpr{{op: "col", col: 1}, {op: "col", col: 2}}, w: &pexpr{op: "a", at: atom{param: -1, v: vint(1)}}}
 		histQueries := []*stmt{
-			{kind: "select", proj: []*pexpr{{op: "col", col: 1}, {op: "col", col: 2}}, w: &pexpr{op: "a", at: atom{param: -1, v: vint(1)}}},
+			full,
 			{kind: "select", proj: []*pexpr{{op: "col", col: 1}}, w: &pexpr{op: "not", args: []*pexpr{{op: "isnull", args: []*pexpr{{op: "col", col: 1}}}}}},
 		}
-		var sx, obs []string
-		seen := map[string]string{}
-		nontrivial := false
-		var fails []string
+		hr := &histRun{out: out, e: e, ss: ss, r: r, seen: map[string]string{}}
+		var plan []planned
+		if c := corpusHistories(full); h < len(c) { // corpus first: the witness history of Gms.C11.finding_shape_stale_if_commit_keeps_txn and its variants
+			plan = c[h]
+			nSteps = len(plan)
+		}
 		for i := 0; i < nSteps; i++ {
-			var st *stmt
-			if r.Chance(1, 2) { // a query, preferably one that was run before
-				if len(histQueries) > 0 && r.Chance(1, 2) {
-					st = hx.Pick(r, histQueries) // re-run a query of this history (after the writes in between)
-				} else if len(queries) > 0 && r.Chance(1, 2) {
-					st = hx.Pick(r, queries)
-				} else {
-					for {
-						st, _ = genStmtLit(r)
-						if st.kind == "select" {
-							break
-						}
-					}
-					if len(queries) < 300 {
-						queries = append(queries, st)
-					}
-				}
+			var p planned
+			if len(plan) > 0 {
+				p, plan = plan[0], plan[1:]
 			} else {
-				for {
-					st, _ = genStmtLit(r)
-					if st.kind != "select" {
-						break
-					}
-				}
+				p = hr.choose(histQueries, &queries)
 			}
-			text := st.text(mode{})
-			sess, other := s1, s2
-			if r.Bool() {
-				sess, other = s2, s1
-			}
-			o := fromEng(e.Query(sess.ctx, text)).obs()
-			sx = append(sx, "(st "+st.sexp()+" ())")
-			obs = append(obs, o)
-			out.Stat("step." + st.kind)
-			if st.kind == "select" {
-				histQueries = append(histQueries, st)
-				if prev, ok := seen[text]; ok && prev != o {
-					nontrivial = true
-				}
-				seen[text] = o
-				// the same query again: same session, other session, prepared in both — all must show the same (current) rows
-				for name, o2 := range map[string]string{
-					"rerun":          fromEng(e.Query(sess.ctx, text)).obs(),
-					"other-session":  fromEng(e.Query(other.ctx, text)).obs(),
-					"prepared":       sess.prepared(e, text).obs(),
-					"prepared-other": other.prepared(e, text).obs(),
-					"prepared-rerun": sess.prepared(e, text).obs(),
-				} {
-					if o2 != o {
-						fails = append(fails, fmt.Sprintf("step %d %q: first=%s | %s=%s", i, text, o, name, o2))
-					}
-				}
+			if p.tx != "" {
+				hr.txStep(p.sess, p.tx, p.variant)
 				continue
 			}
-			// a write: also touch u now and then, then compare the cache-prone shapes with a fresh engine
+			st := p.st
+			isWrite := hr.stmtStep(i, p.sess, st)
+			if !isWrite {
+				histQueries = append(histQueries, st)
+				continue
+			}
+			if !hr.bothIdle() {
+				continue
+			}
+			// a write outside transactions: also touch u now and then, then compare the cache-prone shapes with a fresh engine
+			other := ss[1-p.sess]
 			if r.Chance(1, 2) {
 				q := fmt.Sprintf("INSERT INTO u VALUES (%d, %s)", 100+h*20+i, (&gen{r: r}).intVal().lit())
 				if r.Chance(1, 3) {
@@ -922,23 +913,25 @@ func run(a hx.RunArgs) error {
 					want := fromEng(fe.Query(fctx, q)).obs()
 					for name, sc := range map[string]*sql.Context{"session1": s1.ctx, "session2": s2.ctx, "session1-rerun": s1.ctx} {
 						if got := fromEng(e.Query(sc, q)).obs(); got != want {
-							fails = append(fails, fmt.Sprintf("step %d shape %q (%s): live=%s | fresh engine on the current data=%s", i, q, name, got, want))
+							hr.fails = append(hr.fails, fmt.Sprintf("step %d shape %q (%s): live=%s | fresh engine on the current data=%s", i, q, name, got, want))
 						}
 					}
 					out.Stat("shape-checks")
 				}
 			}
 		}
+		hr.epilogue(full)
 		var rs []string
 		for _, rw := range rows {
 			rs = append(rs, fmt.Sprintf("(row %s %s %s)", rw[0].sexp(), rw[1].sexp(), rw[2].sexp()))
 		}
-		id := out.Case(fmt.Sprintf("(hist (tbl %s) (steps %s))", strings.Join(rs, " "), strings.Join(sx, " ")), strings.Join(obs, " ; "), nontrivial)
+		id := out.Case(fmt.Sprintf("(hist (tbl %s) (steps %s))", strings.Join(rs, " "), strings.Join(hr.sx, " ")), strings.Join(hr.obs, " ; "), hr.nontrivial)
 		out.Stat("hist")
-		for _, f := range fails {
+		for _, f := range hr.fails {
 			out.OracleFail(id, "-", f)
 		}
 	}
+	runTriggers(a, out, r.Fork())
 	return nil
 }
 
